@@ -19,7 +19,7 @@ RULE = (
     "both entry points (tridiagonalize, quaternion_eigendecomposition); non-trivial = A non-zero; distinct = sha1(input, entry)"
 )
 BOUNDS = {
-    "quick": "n<=4 all compositions x all injective value assignments (capped 24 per composition) x {id, monomial, Householder}; n=2 all 144 integer matrices; n=3 8 masks x 5 letters x 3 diagonals; n=4 64 masks; exhaustive Hermitian small-integer cells: diagonal over {-1,0,1}, off-diagonal over {0,1,-1,i,j,k}: all 2x2, every 3rd 3x3",
+    "quick": "n<=4 all compositions x all injective value assignments (capped 24 per composition) x {id, monomial, Householder}; n=2 all 144 integer matrices; n=3 8 masks x 5 letters x 3 diagonals; n=4 64 masks; exhaustive Hermitian small-integer cells: diagonal over {-1,0,1}, off-diagonal over {0,1,-1,i,j,k}: all 2x2, every 3rd 3x3; mixed-scale single-defect rejects (2^28 entry next to a 0.75 / 2^-7 defect); xf tinysub",
     "thorough": "n<=6, up to 60 value assignments per composition; exhaustive Hermitian small-integer cells in full (2x2, 3x3: diagonal {-1,0,1}, off-diagonal {0,1,-1,i,j,k})",
 }
 THOROUGH_STREAMS = 8
